@@ -240,6 +240,11 @@ def run(rep, prog, tier):
         okw = False
     rep.ob('R-ALG', 'dfactor vs trapezoid weights', okw, '1/dfactor_j = (dx_{j-1}+dx_j)/2 inside, dx_0/2 and dx_{N-2}/2 at the ends', shared, cprog.func('compute_dfactor').line,
            what='1/dfactor_j is the trapezoid weight of node j')
+    sub0 = type(rep)(rep.pid, rep.tier)
+    c02.run_shared(sub0, prog, cprog)
+    for o in sub0.obls:
+        if o.construct in ('Python _compute_dfactor', 'C compute_dfactor', 'C compute_dx', 'C compute_xInt'):
+            rep.ob(o.rule, o.construct, o.ok, o.detail, o.file, o.line, what=o.what + ' (the weights that make the fluxes telescope)')
     # (2) corner-only absorption and sweep guards: kernel templates restricted to their boundary / linearity fields
     nb = 0
     for D in range(1, 6):
